@@ -7,8 +7,8 @@
    Lua integers: in_i64, wrap64 (two's complement wrap), u64 (unsigned reading). *)
 From C17 Require Import Model Model2 Model3 Proofs ProofsLib ProofsArith ProofsMul ProofsBits ProofsConv ProofsShift
   ProofsMisc ProofsSudiv ProofsDiv ProofsSigned ProofsDiv2 ProofsDiv3 ProofsPow ProofsText ProofsText2 ProofsText3
-  ProofsMixed ProofsBytes ProofsReject ProofsObj.
-From C17 Require Import Model4 ModelObj.
+  ProofsMixed ProofsBytes ProofsReject ProofsObj ProofsSpace ProofsLit.
+From C17 Require Import Model4 Model5 ModelObj.
 Local Open Scope Z_scope.
 
 (* ---- ring operations ---- *)
@@ -428,3 +428,48 @@ Proof.
   exact (fun s x y m => conj (obj_ipow s x y) (conj (obj_upowmod s x y m) (obj_scalar s x))).
 Qed.
 Print Assumptions C17_objects_pow_scalar.
+
+(* ---- white space in frombase: what each of the two paths accepts, exactly, as the code behaves.
+   spaces l: every character is one of " \f\n\r\t\v".  The short path (fewer than `step` characters) is the VM's
+   tonumber(s, base) and accepts surrounding white space; the chunked path refuses any.  The two disagree on the same
+   numeral (known finding, six designated witnesses; repair proposed in harness/C17/proposed_repairs). ---- *)
+Theorem C17_frombase_domain : forall base, 2 <= base <= 36 ->
+  exists step : nat, (1 <= step <= 64)%nat /\ base ^ Z.of_nat step <= maxint /\
+    (forall s, (length s < step)%nat ->
+       ((exists l sg cs r, s = l ++ sg ++ cs ++ r /\ spaces l /\ spaces r /\ sign_ok sg /\ cs <> [] /\ Forall (char_ok base) cs)
+        <-> exists x, frombase s base = Ok x)) /\
+    (forall s, (step <= length s)%nat ->
+       ((exists sg cs, s = sg ++ cs /\ sign_ok sg /\ cs <> [] /\ Forall (char_ok base) cs) <-> exists x, frombase s base = Ok x)).
+Proof. exact frombase_domain. Qed.
+Print Assumptions C17_frombase_domain.
+
+Theorem C17_frombase_space_uniform_refuted : ~ (forall base s z, 2 <= base <= 36 -> spaces [z] ->
+  (exists x, frombase (z :: s) base = Ok x) -> forall k, exists x, frombase (z :: repeat 48 k ++ s) base = Ok x).
+Proof. exact frombase_space_uniform_refuted. Qed.
+Print Assumptions C17_frombase_space_uniform_refuted.
+
+(* ---- bn.from from the literal TEXT.  split_lit is the total function of the two lpegrex patterns (binpatt,
+   hexpatt) from the text to the captures (neg, int, frac, exp); it is corresponded against the real patterns. ---- *)
+(* an accepted text is partitioned by the captures: sign, "0", the base mark, the mantissa (int, int "." frac, or
+   "." frac with int = "0"; an empty fraction after the point is captured as "0"), the exponent part *)
+Theorem C17_literal_split_partition : forall isdig m1 m2 s neg int frac e,
+  split_lit isdig m1 m2 s = Some (neg, int, frac, e) ->
+  exists sg m mt et, s = sg ++ 48 :: m :: mt ++ et /\ (m = m1 \/ m = m2) /\
+    ((neg = true /\ sg = [45]) \/ (neg = false /\ (sg = [43] \/ sg = []))) /\
+    mant_shape isdig mt int frac /\ exp_shape et e.
+Proof. exact split_partition. Qed.
+Print Assumptions C17_literal_split_partition.
+
+(* integer literals, from the text: [+-]0b<bits>, [+-]0x<hex digits>, decimal digits *)
+Theorem C17_literal_text_exact : forall sg ds, sign_ok sg -> ds <> [] ->
+  (forall m, m = 98 \/ m = 66 -> forallb is_bindigit ds = true ->
+     exists x, bn_from_text (sg ++ 48 :: m :: ds) = TInt x /\ wf x /\ uval x = (sign_val sg * dval 2 (map cval ds)) mod 2 ^ BINT_BITS) /\
+  (forall m, m = 120 \/ m = 88 -> forallb is_hexdigit ds = true ->
+     exists x, bn_from_text (sg ++ 48 :: m :: ds) = TInt x /\ wf x /\ uval x = (sign_val sg * dval 16 (map cval ds)) mod 2 ^ BINT_BITS) /\
+  (forallb is_digit ds = true ->
+     let v := dval 10 (map cval ds) in
+     (sg = [] -> (v < 2 ^ BINT_BITS / 2 -> exists x, bn_from_text ds = TInt x /\ wf x /\ uval x = v /\ sval x = v) /\
+                 (2 ^ BINT_BITS / 2 <= v -> bn_from_text ds = TFloat)) /\
+     (sg <> [] -> exists x, bn_from_text (sg ++ ds) = TInt x /\ wf x /\ uval x = (sign_val sg * v) mod 2 ^ BINT_BITS)).
+Proof. exact from_text_correct. Qed.
+Print Assumptions C17_literal_text_exact.
